@@ -23,10 +23,16 @@ mod arith {
 }
 #[cfg(feature = "cfg-alt")]
 mod arith {
-    pub const ON: bool = false;
-    #[derive(PartialEq, Clone)] pub struct Sc; #[derive(PartialEq, Clone)] pub struct Pt;
-    pub fn s(_: &[u8]) -> Sc { Sc } pub fn p(_: &[u8]) -> Pt { Pt } pub fn gen(_: &Sc) -> Pt { Pt }
-    pub fn dot(_: &[Sc], _: &[Sc]) -> Option<Sc> { Some(Sc) } pub fn mulp(_: &Pt, _: &Sc) -> Pt { Pt }
+    // independent arithmetic for the alternative build: the p256 crate directly (not the crate's own wrapper types)
+    use elliptic_curve::{group::GroupEncoding, PrimeField};
+    use p256::{ProjectivePoint as P, Scalar as S};
+    pub fn s(b: &[u8]) -> S { let a: [u8; 32] = b.try_into().unwrap(); Option::from(S::from_repr(a.into())).unwrap() }
+    pub fn p(b: &[u8]) -> P { let a: [u8; 33] = b.try_into().unwrap(); Option::from(P::from_bytes(&a.into())).unwrap() }
+    pub fn gen(x: &S) -> P { P::GENERATOR * *x }
+    pub fn dot(a: &[S], t: &[S]) -> Option<S> { if a.is_empty() { return None; } Some(a.iter().zip(t.iter()).fold(S::ZERO, |acc, (x, y)| acc + *x * *y)) }
+    pub const ON: bool = true;
+    pub type Sc = S; pub type Pt = P;
+    pub fn mulp(pt: &P, x: &S) -> P { *pt * *x }
 }
 use arith::*;
 
